@@ -228,9 +228,12 @@ func (vc *VC) addObl(kind, name string, st *State, goal string, p token.Pos, tag
 		// trivially true: still counted, discharged syntactically
 	}
 	o := &Obl{Name: name, Kind: kind, PC: st.pc, Goal: goal, Pos: vc.pos(p), Tags: tags, Note: note}
-	if strings.Contains(goal, "(exists ") || kind == "pre" || kind == "idx" || kind == "slice" || kind == "site" {
+	if strings.Contains(goal, "(exists ") || kind == "pre" || kind == "idx" || kind == "slice" || kind == "site" || kind == "inv-step" {
 		for _, a := range sortedAllocs(st.locals) {
 			v := st.locals[a]
+			if kind == "inv-step" && a.Comment != "rangeindex" && !strings.Contains(goal, "(exists ") {
+				continue // loop steps: only the range index (the element just processed) is offered
+			}
 			if v.K == KInt && v.T != nil {
 				if _, _, ok := intRange(v.T); ok && len(o.Cands) < 12 {
 					o.Cands = append(o.Cands, v.S)
